@@ -359,6 +359,29 @@ type walk struct {
 }
 
 func walkFrom(from ssa.Instruction, inclusive bool, stop func(ssa.Instruction) bool) *walk {
+	return walkFromE(from, inclusive, stop, nil)
+}
+
+// edgeFact describes the comparison that holds on a conditional edge.
+func edgeCmp(iff *ssa.If, succ int) (Cmp, bool) {
+	f := expandFact(Fact{iff.Cond, succ == 0})[0]
+	bo, ok := f.Cond.(*ssa.BinOp)
+	if !ok {
+		return Cmp{}, false
+	}
+	op := bo.Op
+	if !f.Truth {
+		op = negOp(op)
+	}
+	if op == token.ILLEGAL {
+		return Cmp{}, false
+	}
+	return Cmp{bo.X, bo.Y, op}, true
+}
+
+// walkFromE is walkFrom with an edge filter: edgeStop(if, succIndex) == true
+// means the walk does not follow that conditional edge.
+func walkFromE(from ssa.Instruction, inclusive bool, stop func(ssa.Instruction) bool, edgeStop func(*ssa.If, int) bool) *walk {
 	w := &walk{parent: map[ssa.Instruction]ssa.Instruction{}}
 	seen := map[inode]bool{}
 	type item struct {
@@ -387,11 +410,32 @@ func walkFrom(from ssa.Instruction, inclusive bool, stop func(ssa.Instruction) b
 		if stop != nil && stop(in) {
 			continue
 		}
+		if iff, ok := in.(*ssa.If); ok && edgeStop != nil {
+			for i, sb := range iff.Block().Succs {
+				if edgeStop(iff, i) || len(sb.Instrs) == 0 {
+					continue
+				}
+				stack = append(stack, item{inode{sb, 0}, in})
+			}
+			continue
+		}
 		for _, s := range it.n.succs() {
 			stack = append(stack, item{s, in})
 		}
 	}
 	return w
+}
+
+// mustPassToExitE: like mustPassToExit, but paths through conditional edges
+// satisfying edgeStop are exempt.
+func mustPassToExitE(P *Prog, from ssa.Instruction, event func(ssa.Instruction) bool, edgeStop func(*ssa.If, int) bool) (bool, string) {
+	w := walkFromE(from, false, event, edgeStop)
+	for _, in := range w.order {
+		if isReturn(in) && !event(in) {
+			return false, w.witness(P, in)
+		}
+	}
+	return true, ""
 }
 
 func (w *walk) witness(P *Prog, to ssa.Instruction) string {
